@@ -233,13 +233,13 @@ def report(R, rec, rng, build, guest, t, o, bk, f, bad, chunk_id):
     except R.ToolError:
         consts = None
 
-    def failing_variants(variants):
+    def failing_variants(variants, pin=False):
         """variants: list of sets of enabled statements; one TU holds them all.
         Returns the indexes of the variants that show the same kind of disagreement."""
         nonlocal tries
         tries += 1
         try:
-            host, objs = build([f.source(en, "r%d" % k, consts) for k, en in enumerate(variants)], "red", [(t, o)])
+            host, objs = build([f.source(en, "r%d" % k, consts, pin=pin) for k, en in enumerate(variants)], "red", [(t, o)])
         except R.ToolError:
             return []
         out = []
@@ -265,6 +265,15 @@ def report(R, rec, rng, build, guest, t, o, bk, f, bad, chunk_id):
     if 0 not in idx:
         rec.count("disagreement_not_reproduced_alone:%s" % t)
     single = [k for k in sorted(idx) if k > 0]
+    pinned = False
+    if not single and consts is not None:
+        # every statement alone once more, with its operands kept alive across the operation
+        res2 = failing_variants([set(enabled)] + singles, pin=True)
+        idx2 = {k: (r, w, code) for k, r, w, code in res2}
+        single = [k for k in sorted(idx2) if k > 0]
+        if single:
+            idx = idx2
+            pinned = True
     if single:
         k = single[0]
         enabled = set(singles[k - 1])
@@ -290,7 +299,7 @@ def report(R, rec, rng, build, guest, t, o, bk, f, bad, chunk_id):
     if bk != "python":
         key = "[%s] " % bk + key
     wit = dict(target=t, opt=o, backend=bk, ops_all=f.ops(), ops_reduced=ops,
-               source=f.source(enabled, "r", consts), a="0x%x" % a, b="0x%x" % b, c="0x%x" % c,
+               source=f.source(enabled, "r", consts, pin=pinned), a="0x%x" % a, b="0x%x" % b, c="0x%x" % c,
                mem={k: ["0x%x" % x for x in v] for k, v in mem.items()},
                what=describe(last["got"], last["want"]))
     if last["code"] is not None:
